@@ -180,6 +180,15 @@ def runtime_lines(ctx):
         ("S = NormalizeCurve(InFieldName = A,\n RawValues = [1, 1],\n NormalValues = [0, 1])\n", "DuplicateRawValues", [8]),
         ("S = NormalizeCat(\n InFieldName = A, RawValues = [1],\n NormalValues = [0, 1], DefaultNormalValue = 0)\n", "MixedArrayLengths", [7]),
         ("S = Sum(InFieldNames = [])\n", "EmptyInputs", [7]),
+        # lists written over several lines: the argument starts on the line of its name (where its bracket stands), the elements follow below
+        ("S = Sum(\n  InFieldNames = [\n    A,\n    B\n  ]\n)\n", "MixedArrayShapes", [7, 8]),
+        ("S = Sum(\n\n  InFieldNames = [\n\n  ]\n)\n", "EmptyInputs", [7, 9]),
+        ("S = Sum(InFieldNames = [\n\n])\n", "EmptyInputs", [7]),
+        ("S = FuzzyUnion(\n  InFieldNames = [\n\n    F,\n    G]\n)\n", "MixedArrayShapes", [7, 8]),
+        ("S = Sum(\n  InFieldNames = [\n    A,\n    Nope\n  ]\n)\n", "ResultDoesNotExist", [8, 10]),
+        ("S = Sum(\n  InFieldNames = [\n    A,\n\n    F\n  ]\n)\n", "ResultIsFuzzy", [8, 11]),
+        ("S = NormalizeCurve(InFieldName = A,\n RawValues = [\n  1,\n  1],\n NormalValues = [0, 1])\n", "DuplicateRawValues", [8]),
+        ("S = NormalizeCurve(InFieldName = A,\n RawValues = [\n  1,\n  x],\n NormalValues = [0, 1])\n", "ParameterNotValid", [8, 10]),
     ]
     # later commands that use the same argument names on other lines (and a later program that does): an error's line is its own command's
     trailer = ('T1 = CvtToFuzzy(InFieldName = A,\n\n  Direction = LowToHigh)\nT2 = NormalizeCurve(InFieldName = A,\n\n\n  RawValues = [1, 2], NormalValues = [0, 1])\n'
@@ -202,7 +211,9 @@ def runtime_lines(ctx):
         parts = got.split(":")
         if parts[:2] != ["mp", err]:
             ctx.fail("expected %s, got %s" % (err, got), {"source": src})
-        elif parts[2] != "-" and int(parts[2]) not in lines:
+        elif parts[2] in ("-", "~"):
+            ctx.fail("%s carries no line; the offending command/argument is on line %r" % (err, lines), {"source": src})
+        elif int(parts[2]) not in lines:
             ctx.fail("%s carries line %s; the offending command/argument is on line %r" % (err, parts[2], lines), {"source": src})
 
 
